@@ -108,6 +108,11 @@ def make_static(rng, A):
     if A == 2 and rng.chance(1, 2):
         b.rule([hd(t, V(0), ("add", ("var", 0), 1))], [cl(b.role["pr0"], V(0)), ("if", ("lt", ("var", 0), DOM - 1))])
     observer_rules(b, "o", subsets(A))
+    if A == 3:
+        # t read with both closure columns bound and the key free, inside a THREE-clause rule (rules with more than two clauses are skipped when some body
+        # index answers `is_empty`: with many keys and few elements per column an estimated size of the [1,2] view must not be mistaken for emptiness)
+        mk = b.rel("mk", 1)
+        b.rule([hd(mk, V(9))], [cl(b.role["pr1"], V(0)), cl(b.role["pr2"], V(1)), cl(t, V(9), V(0), V(1))])
     # constant-bound pattern
     S = rng.choice(subsets(A, nonempty=True))
     consts = {j: rng.range(0, 2) for j in S}
@@ -202,12 +207,19 @@ def gen_graph(rng, shape, n):
 SHAPES = ["chain", "dag", "cycle", "cycle_tail", "selfloop", "two_cycles", "random", "random", "empty"]
 
 
-def gen_c11_input(rng, p, shape=None):
+def gen_c11_input(rng, p, shape=None, many=None):
     A, role = p["A"], p["role"]
     n = rng.range(3, DOM)
     keys = [0] if A == 2 else rng.shuffle([0, 1, 2])[:rng.range(1, 3)]
+    many = (A == 3 and rng.chance(1, 4)) if many is None else (many and A == 3)
     edges = []
-    for kk in keys:
+    if many:
+        # MANY keys sharing one tiny graph (a single edge, or a chain of two edges): few distinct elements per column against many keys
+        keys = list(range(rng.range(26, 32)))
+        a = rng.below(n - 2)
+        small = [(a, a + 1)] + ([(a + 1, a + 2)] if rng.chance(1, 2) else [])
+        edges = [(kk,) + e for kk in keys for e in small]
+    for kk in ([] if many else keys):
         sh = shape or rng.choice(SHAPES)
         for (x, y) in dict.fromkeys(gen_graph(rng.fork(f"g{kk}"), sh, n)):
             edges.append(((kk,) if A == 3 else ()) + (x, y))
@@ -221,7 +233,7 @@ def gen_c11_input(rng, p, shape=None):
         r = role["pr" + sname(S)]
         cand = tuples(S)
         mode = rng.below(4)
-        inp[r] = cand if mode == 0 else ([] if mode == 1 and rng.chance(1, 3) else [c for c in cand if rng.chance(1, 2)])
+        inp[r] = cand if (mode == 0 or (many and S in ((1,), (2,)))) else ([] if mode == 1 and rng.chance(1, 3) else [c for c in cand if rng.chance(1, 2)])
     if "e1" in role and "e2" in role and "sched" not in role:
         for e in edges: inp[role["e1" if rng.chance(2, 3) else "e2"]].append(e)
     elif "e1" in role: inp[role["e1"]] = list(edges)
@@ -386,7 +398,7 @@ def build(rng, tier):
         for j in range(ninp):
             r2 = rng.fork(f"{pid}i{j}")
             shape = SHAPES[j] if j < len(SHAPES) else None       # every shape at least once per program, then mixed per key
-            inp = gen_c11_input(r2, p, shape)
+            inp = gen_c11_input(r2, p, shape, many=(True if (A == 3 and j in (1, 5)) else None))
             inst = f"{pid}_{j}"
             kind = f"{tmpl}{A}"
             if j % 4 == 3:
